@@ -338,7 +338,7 @@ def c15_cfg(tier, seed):
     if tier == "thorough":
         consts = ['URLs = {"u1", "u2"}', "Bundles <- MCBundlesSmall", 'Corruptions = {"truncate", "swapped", "deltaNotDER", "deltaEmpty", "trailing", "dirAtKey"}', "Depth = 4"]
     else:
-        consts = ['URLs = {"u1", "u2", "u3"}', "Bundles <- MCBundles", 'Corruptions = {"truncate", "bitflip", "foreignJSON", "empty", "baseNotDER", "deltaNotDER", "deltaEmpty", "swapped", "trailing", "dirAtKey"}', "Depth = 3"]
+        consts = ['URLs = {"u1", "u2", "u3"}', "Bundles <- MCBundles", 'Corruptions = {"truncate", "bitflip", "foreignJSON", "empty", "baseNotDER", "deltaNotDER", "deltaEmpty", "deltaBadBase64", "swapped", "trailing", "dirAtKey"}', "Depth = 3"]
     return mc_cfg(["Inv_C15", "Inv_Frame", "Inv_NoEffect", "Inv_Emit"], consts=consts)
 
 
